@@ -28,7 +28,7 @@ from .common import make_rodded, set_int_params, set_temps, make_unrodded, patch
 from pvc import core
 from pvc.core import Sym
 
-MODULES = common.RR_MODULES + common.UR_MODULES + ['dassh.core', 'dassh.reactor', 'dassh.mesh_functions', 'dassh.assembly']
+MODULES = common.RR_MODULES + common.UR_MODULES + ['dassh.core', 'dassh.reactor', 'dassh.mesh_functions', 'dassh.assembly', 'dassh.material']
 PROPERTY = 'C02'
 LEAN_LEMMAS = ['sweep_balance', 'core_balance', 'exchange']        # /verif/lean/Ghost.lean, checked in the thorough tier
 FUNCTIONS = ['dassh.region_rodded:RoddedRegion.calculate', 'dassh.region_unrodded:SingleNodeHomogeneous.calculate',
@@ -483,6 +483,10 @@ def configs(tier):
                 (exchange, dict(n=4, m=3)), (exchange, dict(n=3, m=5)), (glue, dict(n_duct_cells=3, n_gap_cells=5)),
                 (gap_step, dict(present=full, types='ceUaceb')),
                 (gap_step, dict(present=(1,) * 7 + (1, 0, 1, 1, 0, 0, 1, 1, 0, 1, 0, 1), types='aUcaUcaUcaUcaU'[:14]))]
+    # the gap contract above takes the tables of Core.load as the callee's contract (areas, flows, the reciprocal of each
+    # cell's own flow that the energy equation multiplies by): C09's contract on the real Core.load, shared
+    from . import c09
+    out.append((c09.layout, dict(present=(1, 1, 1), types='acU')))
     return out
 
 
